@@ -346,11 +346,12 @@ func runC16(e *Engine, r *Report) {
 	ruleChunkFileSync(e, r)
 	ruleSnapshotWriterClose(e, r)
 	ruleSyncUnconditional(e, r)
-	ruleCreatedFileSync(e, r, 1, "internal/fileutil", "internal/server", "internal/transport", "internal/rsm", "")
+	ruleCreatedFileSync(e, r, 1, "internal/fileutil", "internal/server", "internal/transport", "internal/rsm", "", "tools")
 	// shrinking the recorded snapshot is crash-safe only after the on-disk state machine synced (decided by C08's rule set)
 	borrow(e, r, "C08", "MPT-sync-before-shrink")
 	ruleRawMkdir(e, r)
 	ruleSnapshotDeleteOlder(e, r)
+	ruleTempDirNamePattern(e, r)
 }
 
 // dependsOnGuard: some branch condition on the way to `in` depends on a pred value.
